@@ -401,16 +401,19 @@ def jobs_for(seed: int, tier: str) -> list[dict]:
         for i in range(n_extra):
             kind = rng.choice(['circuit'] * 5 + ['unitary'] * 3
                               + ['state', 'system'])
-            level = rng.choice([1, 1, 2, 2, 3, 4] if i % 10 else [4])
+            level = rng.choice([1] * 5 + [2] * 3 + [3]) if i % 30 else 4
             if kind == 'circuit':
                 w = rng.choice([1, 2, 3, 3, 4, 4, 5, 6])
+                if level == 4:          # SeqPAM is factorial in the block size
+                    w = min(w, 3)
                 gates = rng.choice(['cx-u3', 'cx-u3', 'cz-rz-sx', 'cx-u1-rx',
                                     'cz-varu', 'cx-swap-u3', 'iswap-u3',
                                     'cx-nosq'])
                 n = w + rng.choice([0, 0, 1, 2])
                 ms = rng.choice([2, 3])
                 J(f'x{i}-circ', 'circuit',
-                  [circ(w, rng.randint(3, 10), three=(ms >= 3),
+                  [circ(w, rng.randint(3, 5 if level >= 3 else 10),
+                        three=(ms >= 3 and level < 4),
                         barrier=rng.random() < .3, measure=rng.random() < .3,
                         blocked=rng.random() < .2)
                    for _ in range(rng.choice([1, 1, 2]))],
@@ -429,7 +432,8 @@ def jobs_for(seed: int, tier: str) -> list[dict]:
                    for _ in range(rng.choice([1, 2]))],
                   {'n': w, 'shape': rng.choice(['a2a', 'line']),
                    'gates': 'qutrit' if radix == 3 else rng.choice(
-                       ['cx-u3', 'cz-rz-sx', 'cz-varu', 'iswap-u3']),
+                       ['cx-u3', 'cx-u3', 'cz-rz-sx', 'cx-u1-rx', 'cz-varu',
+                        'iswap-u3']),
                    'radix': radix}, level)
             elif kind == 'state':
                 w = rng.choice([1, 2, 2, 3])
@@ -437,7 +441,8 @@ def jobs_for(seed: int, tier: str) -> list[dict]:
                   [{'t': 'state', 'width': w, 'radix': 2,
                     'style': rng.choice(['random', 'basis', 'ghz', 'w'])}],
                   {'n': w, 'shape': 'a2a',
-                   'gates': rng.choice(['cx-u3', 'cz-varu'])},
+                   'gates': rng.choice(['cx-u3', 'cx-u3', 'iswap-u3',
+                                        'cz-varu'])},
                   rng.choice([1, 2]))
             else:
                 w = rng.choice([1, 2])
@@ -608,7 +613,7 @@ def run_batch(ck: Check, jobs: list[dict], workers: int, log) -> list[dict]:
     from bqskit import compile as bq_compile
     from harness.pipe_rt import (JobTimeout, RuntimeUnavailable, alarm,
                                  shared_compiler)
-    job_timeout = 900 if ck.tier == 'quick' else 1800
+    job_timeout = 600 if ck.tier == 'quick' else 900
     prepared = []
     for j in jobs:
         ins = build_inputs(j)
@@ -672,7 +677,11 @@ def run_batch(ck: Check, jobs: list[dict], workers: int, log) -> list[dict]:
                         # fixed ports, or this job takes the server down.  Restart and retry;
                         # a job that loses the runtime three times is set aside.
                         attempts[j['tag']] = attempts.get(j['tag'], 0) + 1
-                        if attempts[j['tag']] == 1:
+                        if res['exc'].startswith('JobTimeout'):
+                            # too slow for the tier on this machine: set aside, no retry
+                            attempts[j['tag']] = 3
+                            res['in_process'] = None
+                        elif attempts[j['tag']] == 1:
                             # cheap diagnosis first: does a pass of this job raise?
                             res['in_process'] = diagnose_lost(res, log)
                         if res.get('in_process'):
